@@ -28,6 +28,7 @@ struct GenCfg {
     bool schedules = false;    // C03
     int executors = 1;         // bit mask of allowed executors (bit0 sequential, bit1 openmp, bit2 specx, bit3 starpu)
     int maxThreads = 16;
+    bool varyThreads = true;   // with schedules: the worker count may differ between construction of the executor and execute()
     bool cycles = false;       // C13 move/rebuild histories
     int maxCycles = 4;
     bool queries = false;      // C16
